@@ -14,3 +14,5 @@ open SophiaProofs.C05
 #print axioms relabel_outcomes_explicit
 #print axioms issued_dom_iff
 #print axioms soundFull_refuted
+#print axioms validated_terms_wellformed
+#print axioms complete_validated
